@@ -61,6 +61,9 @@ def same(impl, model, multi):
         return True                      # cyclic reference chain: both fail
     if multi and KEYRE.sub("key(*)", impl) == KEYRE.sub("key(*)", m):
         return True                      # several missing references: Python names one by set order
+    if multi and re.match(r"err:(key\([^)]*\)|type):[TF]$", ires) and re.match(r"err:(key\([^)]*\)|type):[TF]$", mres) \
+            and split(impl)[1] == split(m)[1]:
+        return True                      # ... likewise when one reference is missing and another hits a scalar parent
     return False
 
 
